@@ -1,10 +1,14 @@
 #!/bin/sh
-# run every quick check for the given seeds; print one line per (check, seed)
+# developer tool: run every quick check (or TIER=thorough) for the given seeds; print one line per (check, seed)
+# usage: tools/soak.sh [-t thorough] [-p "C01 C07"] seed...
 cd "$(dirname "$0")/.."
+tier=quick; props="C01 C02 C03 C04 C05 C06 C07 C08 C09 C10 C11 C12 C13 C14 C15 C16 C17 C18 C19 C20"
+while [ $# -gt 0 ]; do case "$1" in -t) tier=$2; shift 2;; -p) props=$2; shift 2;; *) break;; esac; done
 for s in "$@"; do
-  for p in C01 C02 C03 C04 C05 C06 C07 C08 C09 C10 C11 C12 C13 C14 C15 C16 C17 C18 C19 C20; do
-    t0=$(date +%s); VERIF_SEED=$s ./check $p --tier quick > /tmp/soak_$p_$s.out 2>&1; rc=$?
-    echo "seed=$s $p rc=$rc $(( $(date +%s) - t0 ))s viol=$(grep -c '^VIOLATION' /tmp/soak_$p_$s.out) $(grep -E '^\[C[0-9]+\] [0-9]+ executions' /tmp/soak_$p_$s.out | cut -c1-160)"
-    grep -A1 '^VIOLATION' /tmp/soak_$p_$s.out | head -6
+  for p in $props; do
+    out=/tmp/soak_${p}_${tier}_${s}.out
+    t0=$(date +%s); VERIF_SEED=$s ./check $p --tier $tier > $out 2>&1; rc=$?
+    echo "seed=$s $p $tier rc=$rc $(( $(date +%s) - t0 ))s viol=$(grep -c '^VIOLATION' $out) $(grep -E '^\[C[0-9]+\] [0-9]+ executions' $out | cut -c1-170)"
+    grep -A1 '^VIOLATION' $out | grep 'case=' | head -4 | cut -c1-400
   done
 done
